@@ -25,7 +25,7 @@ def SentClosed (db : DB) : Prop :=
 
 /-- copies of stored entries that agree with the buffer on the parent -/
 def Faithful (db : DB) (l : List Entry) : Prop :=
-  ∀ e ∈ l, ∃ e0, db.find e.blk.id = some e0 ∧ e0.blk.parent = e.blk.parent
+  ∀ e ∈ l, ∃ e0, db.find e.blk.id = some e0 ∧ e0.blk.parent = e.blk.parent ∧ e0.blk.num = e.blk.num
 
 def CacheOK (s : FState) : Prop :=
   ∀ c cs, s.cache = some (c :: cs) → s.db.libRef.id = c.blk.parent →
@@ -213,7 +213,7 @@ theorem compute_chain_path (cfg : Config) (s : FState) (P : List Id) (b : Blk) (
       simp only [List.mem_append, List.mem_singleton] at he
       rcases he with he | rfl
       · exact faithful_append s.db b _ hfa hf e he
-      · exact ⟨⟨b, false⟩, hself, rfl⟩
+      · exact ⟨⟨b, false⟩, hself, rfl, rfl⟩
   · -- ReversibleSegment from the new block
     rw [hres] at hc
     cases hr : (appendBlk s.db b).reversibleSegment cfg.fsb b.ref with
@@ -232,7 +232,12 @@ theorem compute_chain_path (cfg : Config) (s : FState) (P : List Id) (b : Blk) (
         exact h3 x hx hxe
       · intro e he
         obtain ⟨e0, g1, g2, _⟩ := h5 e he
-        exact ⟨e0, g1, g2⟩
+        obtain ⟨e1, k1, k2⟩ := reversibleSegment_nums _ _ _ _ _ hr (by
+          intro eb heb
+          rw [show (appendBlk s.db b).find b.ref.id = some ⟨b, false⟩ from find_append_self s.db b hf] at heb
+          injection heb with heb; subst heb; rfl) e he
+        rw [g1] at k1; injection k1 with k1; subst k1
+        exact ⟨e0, g1, g2, k2⟩
       · intro x hx
         have hxm : x ∈ lc := List.mem_of_getLast? hx
         obtain ⟨e0, g1, _, _, _, g5⟩ := h5 x hxm
@@ -261,7 +266,7 @@ theorem linked_of_path (db : DB) (bottom : Id) (l : List Entry) (hp : IsPath db 
   | cons e r ih =>
     simp only [List.map_cons, IsPath] at hp
     refine ⟨?_, ih e.blk.id hp.2.2 (fun x hx => hf x (by simp [hx]))⟩
-    obtain ⟨e0, h0, h1⟩ := hf e (by simp)
+    obtain ⟨e0, h0, h1, _⟩ := hf e (by simp)
     rw [← h1, ← link_of_find db _ e0 h0]; exact hp.1
 
 theorem filter_unsent_split (db : DB) (lcA lcB : List Entry) (hA : ∀ e ∈ lcA, isSent db e.blk.id = true)
@@ -493,7 +498,7 @@ theorem switch_decomp (cfg : Config) (hundo : cfg.matches .undo = true) (s : FSt
               exact hpr.1
             apply linked_of_path s.db _ _ hpre
             intro e he
-            exact ⟨e, hrsf e (List.mem_filter.mp he).1, rfl⟩
+            exact ⟨e, hrsf e (List.mem_filter.mp he).1, rfl, rfl⟩
           · have : (lc0.takeWhile (fun e => isSent s.db e.blk.id)).map (·.blk.id) =
                 (lc0.map (·.blk.id)).takeWhile (fun x => isSent s.db x) := by
               rw [List.takeWhile_map]; rfl
